@@ -220,7 +220,8 @@ pub struct Case {
     pub keep_alive: u16,
     pub client_id: String,
     pub clean: bool,
-    /// 0 absent, 1 wrong user, 2 wrong password, 3 right
+    /// 0 absent, 1 wrong user, 2 wrong password, 3 right, 4 unknown user with an empty
+    /// password, 5 known user with an empty password
     pub login: u8,
     pub sc: Scenario,
 }
@@ -230,7 +231,10 @@ fn connect_bytes(v5: bool, keep_alive: u16, id: &str, clean: bool, login: u8) ->
         0 => None,
         1 => Some(("nobody", "p")),
         2 => Some(("u", "wrong")),
-        _ => Some(("u", "p")),
+        3 => Some(("u", "p")),
+        // user name present, password empty (on the wire: password flag clear)
+        4 => Some(("nobody", "")),
+        _ => Some(("u", "")),
     };
     let mut b = BytesMut::new();
     if v5 {
@@ -279,8 +283,8 @@ pub fn cases(thorough: bool) -> Vec<Case> {
                 for ka in [0u16, 10] {
                     for id in ids.iter() {
                         for clean in [true, false] {
-                            for login in 0..4u8 {
-                                if !thorough && auth == 0 && login == 1 {
+                            for login in 0..6u8 {
+                                if !thorough && auth == 0 && login != 0 && login != 3 {
                                     continue;
                                 }
                                 let bytes = connect_bytes(first == 1, ka, id, clean, login);
